@@ -282,6 +282,8 @@ def enum_special(tier):
     # one network beyond the single-digit sizes: 15 species, 19 reactions (k[10]..k[18], slots >= 10), the electron in
     # ten reactions (statements long enough to be wrapped over several lines), a sink without products
     yield {"reactions": BIG, "family": "SP"}
+    # long names: a product term without blanks that is longer than the line width of the statement wrapper
+    yield {"reactions": [[["CH3OCH2CH2OCH2CH2OH", "NH2CH2CH2CH2CH2OH", "HCOOCH2CH2CH2CH3"], ["H2O", "H2O"]], [["H2O", "HCOOCH2CH2CH2CH3"], ["CH3OCH2CH2OCH2CH2OH"]]], "family": "SP"}
     yield {"reactions": BIG + [[["CO"], []]], "cooling": ["CIC_HI", "RC_HII"], "required": ["Ar"], "family": "SP"}
 
 
